@@ -153,10 +153,10 @@ func runLoaded(p *Program, prop string, spec propSpec, tier, repo, verif, outDir
 		}
 		if missing != "" {
 			if gone, typ := p.roleRemoved(missing); gone {
-				// not renamed: nothing of the role's type is left in the struct. The state the rule is about was
+				// not renamed: the struct holds fewer fields of the role's type than roles of that type. The state the rule is about was
 				// taken out, which is a change of behaviour, not of spelling
 				r.Check("anchors", name+":removed["+missing+"]", false, 0,
-					"%s is gone and its struct holds nothing of type %s any more: the state that rule %s is about (it names this field) was removed, not renamed", missing, typ, name)
+					"%s is gone and its struct holds no field of type %s that could play its part: the state that rule %s is about (it names this field) was removed, not renamed", missing, typ, name)
 				continue
 			}
 			r.Undecide("anchors", "%s: field %s not found (renamed or removed); the rule names it and cannot be evaluated", name, missing)
